@@ -540,3 +540,227 @@ Proof.
     unfold startable in Hst'. destruct (st (procs s' q)) eqn:Es; try discriminate; auto.
     apply (g_fresh _ (s_g _ I')) in Es. lia.
 Qed.
+
+Theorem crash_then_start : forall sched s q, run init sched = Some s -> quiet s ->
+  st (procs s q) = NotStarted ->
+  exists s', run s (repeat (Step q) serve_pc) = Some s' /\ serving s' q = true.
+Proof.
+  intros sched s q Hrun Q Hq. apply fresh_start_serves; auto. eapply GInv_run; eauto using GInv_init.
+Qed.
+
+(* the property's wording: the only running munged is killed, wherever it is in its program *)
+Theorem kill_then_start : forall sched s p s1 q, run init sched = Some s ->
+  st (procs s p) = Running -> (forall w, w <> p -> st (procs s w) <> Running) ->
+  step s (Crash p) = Some s1 -> st (procs s q) = NotStarted ->
+  exists s', run s1 (repeat (Step q) serve_pc) = Some s' /\ serving s' q = true.
+Proof.
+  intros sched s p s1 q Hrun Hp Hoth Hc Hq.
+  assert (G1 : GInv s1). { eapply GInv_step; [|exact Hc]. eapply GInv_run; eauto using GInv_init. }
+  apply step_Crash_inv in Hc. destruct Hc as [_ ->].
+  apply fresh_start_serves; auto.
+  - intros w. cbn. unfold upd. destruct (Nat.eqb_spec w p); cbn; [discriminate|auto].
+  - cbn. unfold upd. destruct (Nat.eqb_spec q p); [subst; congruence|auto].
+Qed.
+
+(* ---- clean stop ---- *)
+Definition seed_inode := mkIno Reg 384.
+
+Record ShInv (s0 s : state) (p : nat) : Prop := {
+  sh_run : st (procs s p) = Running;
+  sh_pc : 9 <= pc (procs s p) <= 16;
+  sh_next : next s0 <= next s;
+  sh_sock : 10 <= pc (procs s p) -> names s NSock = None;
+  sh_lock : 12 <= pc (procs s p) -> names s NLock = None;
+  sh_unlseed : pc (procs s p) = 14 -> names s NSeed = None;
+  sh_seed : 15 <= pc (procs s p) ->
+            exists f, names s NSeed = Some f /\ next s0 <= f /\ inodes s f = seed_inode;
+  sh_pid : 16 <= pc (procs s p) -> names s NPid = None }.
+
+Lemma shutdown_progress : forall s0 s p, ShInv s0 s p -> pc (procs s p) < 16 ->
+  exists s', step s (Step p) = Some s' /\ ShInv s0 s' p /\ pc (procs s' p) = S (pc (procs s p)).
+Proof.
+  intros s0 s p [Hr Hpc Hnx Hsock Hlock Huseed Hseed Hpid] Hlt.
+  assert (Hst : startable (procs s p) = true) by (unfold startable; now rewrite Hr).
+  assert (Hc : exists a s1 pr1, nth_error prog (pc (procs s p)) = Some a /\ exec s p (procs s p) a = Cont s1 pr1 /\
+     next s0 <= next s1 /\
+     (10 <= S (pc (procs s p)) -> names s1 NSock = None) /\
+     (12 <= S (pc (procs s p)) -> names s1 NLock = None) /\
+     (S (pc (procs s p)) = 14 -> names s1 NSeed = None) /\
+     (15 <= S (pc (procs s p)) -> exists f, names s1 NSeed = Some f /\ next s0 <= f /\ inodes s1 f = seed_inode) /\
+     (16 <= S (pc (procs s p)) -> names s1 NPid = None) /\ procs s1 = procs s).
+  { assert (Hsock' : 10 <= pc (procs s p) -> names s NSock = None) by exact Hsock.
+    assert (Hlock' : 12 <= pc (procs s p) -> names s NLock = None) by exact Hlock.
+    destruct (pc (procs s p)) as [|[|[|[|[|[|[|[|[|[|[|[|[|[|[|[|n]]]]]]]]]]]]]]]] eqn:Hk; try (exfalso; lia).
+    - exists (Unlink NSock). cbn. do 2 eexists. repeat split; eauto; try (intros; exfalso; lia).
+    - exists CloseSock. cbn. destruct (sockfd (procs s p)); do 2 eexists; repeat split; eauto;
+        try (intros; exfalso; lia); cbn; auto with arith.
+    - exists (Unlink NLock). cbn. do 2 eexists. repeat split; eauto; try (intros; exfalso; lia);
+        try (cbn; apply Hsock; lia).
+    - exists CloseLock. cbn. destruct (lockfd (procs s p)); do 2 eexists; repeat split; eauto;
+        try (intros; exfalso; lia); cbn; auto with arith.
+    - exists (Unlink NSeed). cbn. do 2 eexists. repeat split; eauto; try (intros; exfalso; lia); cbn;
+        auto with arith.
+    - exists WriteSeed. cbn. rewrite (Huseed eq_refl). do 2 eexists. repeat split; eauto;
+        try (intros; exfalso; lia); cbn; auto with arith.
+      intros _. exists (next s). cbn. unfold upd. rewrite Nat.eqb_refl. auto.
+    - exists (Unlink NPid). cbn. do 2 eexists. repeat split; eauto; try (intros; exfalso; lia); cbn;
+        auto with arith; intros; first [apply Hsock'|apply Hlock'|apply Hseed]; lia. }
+  destruct Hc as (a & s1 & pr1 & Hn & E & A1 & A2 & A3 & A4 & A5 & A6 & Hp).
+  eexists. split; [eapply step_cont; eauto|]. split; [|cbn; now rewrite upd_same].
+  constructor; cbn; rewrite ?upd_same; cbn; auto. lia.
+Qed.
+
+Lemma clear_not : forall f p i, clear f p i <> Some p.
+Proof. unfold clear; intros f p i. destruct (f i) as [w|]; [|discriminate]. destruct (Nat.eqb_spec w p); congruence. Qed.
+
+Lemma shutdown_run : forall n s0 s p, ShInv s0 s p -> pc (procs s p) + n = 16 ->
+  exists s', run s (repeat (Step p) n) = Some s' /\ ShInv s0 s' p /\ pc (procs s' p) = 16.
+Proof.
+  induction n as [|n IH]; intros s0 s p Sh Hk; cbn [repeat run].
+  - exists s. split; [reflexivity|]. split; [assumption|lia].
+  - destruct (shutdown_progress _ _ _ Sh ltac:(lia)) as (s1 & Hs & Sh1 & Hpc1). rewrite Hs.
+    apply IH; auto. lia.
+Qed.
+
+Theorem clean_stop_postcondition : forall s p, st (procs s p) = Running -> pc (procs s p) = serve_pc ->
+  exists s', run s (Term p :: repeat (Step p) (length shutdown)) = Some s' /\
+    st (procs s' p) = Exited /\
+    names s' NSock = None /\ names s' NLock = None /\ names s' NPid = None /\
+    (exists f, names s' NSeed = Some f /\ next s <= f /\ inodes s' f = seed_inode) /\
+    (forall i, lockown s' i <> Some p) /\ (forall j, listener s' j <> Some p).
+Proof.
+  intros s p Hr Hpc. cbn [run length shutdown].
+  assert (Ht : step s (Term p) = Some (set_proc s p (mkProc Running 9 (lockfd (procs s p)) (sockfd (procs s p))))).
+  { unfold step. rewrite Hr, Hpc. reflexivity. }
+  rewrite Ht.
+  set (s1 := set_proc s p _).
+  assert (Sh : ShInv s s1 p).
+  { subst s1. constructor; cbn; rewrite ?upd_same; cbn; auto; try (intros; exfalso; lia). lia. }
+  change 8 with (S 7). cbn [repeat].
+  destruct (shutdown_run 7 s s1 p Sh) as (s2 & Hrun & Sh2 & Hpc2).
+  { subst s1. cbn. now rewrite upd_same. }
+  assert (Hsplit : forall s, run s (repeat (Step p) 7 ++ [Step p]) = run s (Step p :: repeat (Step p) 7)) by reflexivity.
+  rewrite <- Hsplit.
+  assert (Happ : forall a b s, run s (a ++ b) = match run s a with Some s' => run s' b | None => None end).
+  { induction a as [|x a IHa]; intros b s3; cbn; auto. destruct (step s3 x); auto. }
+  rewrite Happ, Hrun. cbn [run].
+  destruct Sh2 as [Hr2 _ _ Hsock Hlock _ Hseed Hpid].
+  unfold step. unfold startable. rewrite Hr2, Hpc2. cbn.
+  eexists. split; [reflexivity|]. cbn. rewrite upd_same. cbn.
+  repeat split; auto; try (apply Hsock + apply Hlock + apply Hpid; lia).
+  - apply Hseed. lia.
+  - intros i. apply clear_not.
+  - intros j. apply clear_not.
+Qed.
+
+(* ---- wrappers in the vocabulary of the property ---- *)
+Lemma reach_SInv : forall hist s0 sched s, run init hist = Some s0 -> quiet s0 ->
+  starts_and_crashes sched = true -> run s0 sched = Some s -> SInv s.
+Proof.
+  intros hist s0 sched s Hh Q Hsc Hr. eapply SInv_run; eauto. apply quiet_SInv; auto.
+  eapply GInv_run; eauto using GInv_init.
+Qed.
+
+Theorem single_holder_reach : forall hist s0 sched s, run init hist = Some s0 -> quiet s0 ->
+  starts_and_crashes sched = true -> run s0 sched = Some s ->
+  (forall p q, past_setlk s p -> past_setlk s q -> p = q) /\
+  (forall p, past_setlk s p -> holder s p) /\
+  (forall p, at_serve s p = true -> serving s p = true).
+Proof.
+  intros hist s0 sched s Hh Q Hsc Hr. eapply single_holder; eauto. eapply GInv_run; eauto using GInv_init.
+Qed.
+
+Theorem only_holder_mutates : forall hist s0 pre s1 l s2, run init hist = Some s0 -> quiet s0 ->
+  starts_and_crashes pre = true -> run s0 pre = Some s1 -> step s1 l = Some s2 ->
+  match l with
+  | Step p => (forall a, next_prim s1 p = Some a -> mutating a = true -> past_setlk s1 p /\ holder s1 p)
+              /\ (~ past_setlk s1 p -> untouched s1 s2 p)
+  | Crash p => untouched s1 s2 p
+  | Term _ => True
+  end.
+Proof.
+  intros hist s0 pre s1 l s2 Hh Q Hsc Hr Hs.
+  pose proof (reach_SInv _ _ _ _ Hh Q Hsc Hr) as I.
+  destruct l as [p|p|p]; auto.
+  - split.
+    + intros a Hn Hm. assert (P : past_setlk s1 p).
+      { eapply mutating_needs_lock; eauto using s_g. apply step_Step_inv in Hs. tauto. }
+      split; auto. now apply SInv_holder.
+    + intros Hnp. apply loser_frame; auto using s_g.
+  - now apply crash_frame.
+Qed.
+
+Theorem loser_exits_reach : forall hist s0 pre s1 w p s2, run init hist = Some s0 -> quiet s0 ->
+  starts_and_crashes pre = true -> run s0 pre = Some s1 ->
+  past_setlk s1 w -> w <> p -> next_prim s1 p = Some SetLk -> step s1 (Step p) = Some s2 ->
+  st (procs s2 p) = Failed /\ untouched s1 s2 p.
+Proof.
+  intros hist s0 pre s1 w p s2 Hh Q Hsc Hr Hw Hne Hn Hs.
+  pose proof (reach_SInv _ _ _ _ Hh Q Hsc Hr) as I.
+  eapply loser_exits; eauto. apply step_Step_inv in Hs. tauto.
+Qed.
+
+Theorem winner_undisturbed_reach : forall hist s0 pre s1 w sched s2, run init hist = Some s0 -> quiet s0 ->
+  starts_and_crashes pre = true -> run s0 pre = Some s1 -> serving s1 w = true ->
+  Forall (fun l => no_term l /\ l <> Crash w) sched -> run s1 sched = Some s2 ->
+  serving s2 w = true /\ same_service s1 s2 w.
+Proof.
+  intros hist s0 pre s1 w sched s2 Hh Q Hsc Hr Hs HF Hr2.
+  pose proof (reach_SInv _ _ _ _ Hh Q Hsc Hr) as I. eapply winner_undisturbed; eauto.
+Qed.
+
+(* once past F_SETLK, a starting daemon reaches service whatever the others do *)
+Theorem holder_completes : forall hist s0 pre s1 p, run init hist = Some s0 -> quiet s0 ->
+  starts_and_crashes pre = true -> run s0 pre = Some s1 -> past_setlk s1 p -> pc (procs s1 p) < serve_pc ->
+  exists s2, step s1 (Step p) = Some s2 /\ st (procs s2 p) = Running /\ pc (procs s2 p) = S (pc (procs s1 p)).
+Proof.
+  intros hist s0 pre s1 p Hh Q Hsc Hr [Hp Hp3] Hlt.
+  pose proof (reach_SInv _ _ _ _ Hh Q Hsc Hr) as I.
+  destruct (start_progress s1 p I) as (s2 & A & B & C & _); eauto.
+  - unfold startable. now rewrite Hp.
+  - intros; exfalso; lia.
+Qed.
+
+(* ---- finding F-C15-unlink: with a clean stop between another start's open and F_SETLK ---- *)
+Definition two_daemons (s : state) (b c : nat) : bool :=
+  at_serve s b && at_serve s c && negb (Nat.eqb b c) && negb (serving s b) && serving s c
+  && match lockfd (procs s b) with Some i => opt_is (lockown s i) b | None => false end
+  && match sockfd (procs s b) with Some j => opt_is (listener s j) b | None => false end.
+
+Lemma overlap_computed :
+  match run init (overlap_sched 0 1 2) with Some s => two_daemons s 1 2 | None => false end = true.
+Proof. vm_compute. reflexivity. Qed.
+
+Theorem shutdown_overlap_refuted : exists sched s b c,
+  run init sched = Some s /\ b <> c /\
+  past_setlk s b /\ past_setlk s c /\ at_serve s b = true /\ at_serve s c = true /\
+  serving s b = false /\ serving s c = true /\
+  (exists i, lockfd (procs s b) = Some i /\ lockown s i = Some b /\ names s NLock <> Some i).
+Proof.
+  pose proof overlap_computed as H.
+  destruct (run init (overlap_sched 0 1 2)) as [s|] eqn:E; [|discriminate].
+  exists (overlap_sched 0 1 2), s, 1, 2. split; auto.
+  unfold two_daemons in H.
+  apply andb_true_iff in H; destruct H as [H Hsb].
+  apply andb_true_iff in H; destruct H as [H Hlb].
+  apply andb_true_iff in H; destruct H as [H Hsc].
+  apply andb_true_iff in H; destruct H as [H Hnsb].
+  apply andb_true_iff in H; destruct H as [H Hne].
+  apply andb_true_iff in H; destruct H as [Hab Hac].
+  destruct (at_serve_inv _ _ Hab) as [Hb Hb8]. destruct (at_serve_inv _ _ Hac) as [Hc Hc8].
+  apply negb_true_iff in Hnsb.
+  split; [discriminate|]. split; [split; auto; lia|]. split; [split; auto; lia|].
+  repeat split; auto.
+  destruct (lockfd (procs s 1)) as [i|] eqn:Ei; [|discriminate]. exists i. split; auto.
+  unfold opt_is in Hlb. destruct (lockown s i) as [w|] eqn:Ew; [|discriminate]. apply Nat.eqb_eq in Hlb. subst w.
+  split; auto. intros Hn.
+  (* were the lock name still b's inode, c could not be serving: the lock is b's *)
+  unfold serving in Hsc. rewrite Hn, Ew in Hsc. cbn in Hsc. rewrite andb_false_r in Hsc. discriminate.
+Qed.
+
+Corollary single_holder_needs_no_clean_stop :
+  ~ (forall sched s, run init sched = Some s -> forall p q, past_setlk s p -> past_setlk s q -> p = q).
+Proof.
+  intros H. destruct shutdown_overlap_refuted as (sched & s & b & c & Hr & Hne & Hb & Hc & _).
+  apply Hne. eapply H; eauto.
+Qed.
